@@ -239,6 +239,7 @@ namespace GeographicLib {
     for (int n = 0; n < num; ++n) {
       if (skip[n]) continue;
       XPoint qx = Basic(lineX, lineY, XPoint(ix[n] * _d2, iy[n] * _d2));
+      if (isnan(qx.x + qx.y)) return qx; // NaN in => NaN out
       qx = fixcoincident(z, qx);
       bool zerop = _comp.eq(z, qx);
       if (qx.c == 0 && zerop) continue;
